@@ -224,19 +224,20 @@ def rule_bucket(ctx):
 def rule_port(ctx):
     f = ctx.func('peer', 'Peer._port')
     n = 0
-    rets = [r for r in f.own_nodes() if isinstance(r, ast.Return) and r.value is not None and norm(r.value) != 'None']
-    ok, why = False, 'no value-returning path'
-    for r in rets:
-        conds = pr.control_conditions(r, f.node)
+    # per return path: a value other than None is returned only under 0 < port < 65536, however the test is spelt (nested
+    # ifs, guard clauses, a conditional expression, a named flag)
+    from .. import paths as P
+    rets = [p_ for p_ in P.returns(f.node) if not (p_.value is None or (isinstance(p_.value, ast.Constant) and p_.value.value is None))]
+    ok, why = bool(rets), 'no value-returning path'
+    for p_ in rets:
         parts = []
-        for t, b, _p in conds:
-            if b:
-                for cj in pr.conjuncts(t):
-                    parts += q.split_compare(cj)
+        for t, pol in p_.decisions():
+            for cj in (pr.conjuncts(t) if pol else [ast.UnaryOp(op=ast.Not(), operand=t)]):
+                parts += q.split_compare(cj) if not (isinstance(cj, ast.UnaryOp)) else [cj]
         lo = hi = False
-        pv = norm(r.value)
+        pv = norm(p_.value)
         for pc in parts:
-            cn = q.comparison_normal(ctx, f, pc)
+            cn = q.comparison_normal(ctx, None, pc)
             if cn is None:
                 continue
             dd, op = cn
@@ -248,9 +249,10 @@ def rule_port(ctx):
                 lo = True
             if op == '>=' and q.lin_eq(dd, {pv: -1, '': 65535}):
                 hi = True
-        ok = lo and hi
-        why = f'`return {pv}` under {[norm(c[0]) for c in conds]}: lower bound ok={lo}, upper bound ok={hi}'
-    ctx.check(ok and len(rets) == 1, 'C19.PORT', ctx.key(f, None, 'range'),
+        ok = ok and lo and hi
+        if not (lo and hi):
+            why = f'`return {pv}` under {p_.cond_texts()}: lower bound ok={lo}, upper bound ok={hi}'
+    ctx.check(ok, 'C19.PORT', ctx.key(f, None, 'range'),
               'a port is returned only under 0 < port < 65536', 'a port can be returned outside 0 < port < 65536: ' + why, loc=ctx.loc(f, f.node))
     n += 1
     g = ctx.func('peer', 'Peer._integer')
